@@ -42,6 +42,9 @@ type creq struct {
 	Acked   bool // terminal ack sent by the server
 	Granted []bool
 	Active  []bool // filter active (granted, not yet unsubscribed)
+	// Late: an Unsubscribe for this filter completed between this request's SUBACK and its
+	// completion (held back behind an older Subscribe): the library registers the filter afterwards
+	Late []bool
 	SentAt  int
 	RecSent bool
 	// schedule-exploration scenarios: id seen by the peer thread
@@ -175,6 +178,7 @@ func (w *ClientWorld) Issue(kind string, filters []string, qoss []byte, payload 
 		})
 		r.Granted = make([]bool, len(filters))
 		r.Active = make([]bool, len(filters))
+		r.Late = make([]bool, len(filters))
 	case "unsub":
 		m := message.NewUnsubscribeMessage()
 		for _, f := range filters {
